@@ -49,6 +49,8 @@
 (declare-fun bech32Decode (Str) Bytes)
 ; an address rendered by AccAddress.String parses back (bech32 round trip of the SDK, for non-empty addresses)
 (assert (forall ((a Bytes)) (! (=> (> (blen a) 0) (and (= (bech32Err (bech32 a)) NoErr) (= (bech32Decode (bech32 a)) a))) :pattern ((bech32 a)))))
+; bech32 rendering is injective (distinct byte strings render differently)
+(assert (forall ((a Bytes) (b Bytes)) (! (=> (= (bech32 a) (bech32 b)) (= a b)) :pattern ((bech32 a) (bech32 b)))))
 ; first byte (family tag) of a key
 (define-fun tagOf ((k Key)) Int
   (ite (is-KDef k) 1 (ite (is-KBind k) 2 (ite (is-KOwnerBind k) 3 (ite (is-KOwner k) 4 (ite (is-KOwnerProv k) 5 (ite (is-KPricing k) 6 (ite (is-KWAddr k) 7
